@@ -392,7 +392,13 @@ func (vfs *MemFS) Lstat(path string) (fs.FileInfo, error) {
 		return nil, &fs.PathError{Op: op, Path: path, Err: err}
 	}
 
-	fst := child.fillStatFrom(pi.Part())
+	name := pi.Part()
+	if child == node(vfs.rootNode) || name == "" {
+		// the name of a root directory is the path separator.
+		name = string(vfs.PathSeparator())
+	}
+
+	fst := child.fillStatFrom(name)
 	if fst.nlink == 0 && fst.mode.IsRegular() {
 		// the file has been removed since the search.
 		return nil, &fs.PathError{Op: op, Path: path, Err: vfs.err.NoSuchFile}
@@ -1014,7 +1020,13 @@ func (vfs *MemFS) Stat(path string) (fs.FileInfo, error) {
 		return nil, &fs.PathError{Op: op, Path: path, Err: err}
 	}
 
-	fst := child.fillStatFrom(pi.Part())
+	name := pi.Part()
+	if child == node(vfs.rootNode) || name == "" {
+		// the name of a root directory is the path separator.
+		name = string(vfs.PathSeparator())
+	}
+
+	fst := child.fillStatFrom(name)
 	if fst.nlink == 0 && fst.mode.IsRegular() {
 		// the file has been removed since the search.
 		return nil, &fs.PathError{Op: op, Path: path, Err: vfs.err.NoSuchFile}
